@@ -296,6 +296,7 @@ theorem step_ok {s : St} (op : Op) (hI : Inv s) (hw : op.wf s = true) :
   | reset h => exact step_reset hI hw
   | unify h => exact step_unify hI hw
   | dtor h => exact step_dtor hI hw
+  | objassign h x => exact ⟨s, rfl, hI⟩
 
 /-- **C12, sequential.**  For every history: either the caller violated a precondition of the
     protocol (`bad-op`), or the run succeeds — no use-after-free, no failing assert — and the
@@ -364,6 +365,7 @@ theorem step_mono {s s' : St} {op : Op} (h : step s op = .ok s') : Mono s s' := 
     obtain ⟨s1, e1, h⟩ := bind_ok h
     cases pure_ok h
     exact (decRef_mono e1).trans (mono_setH _ _ _)
+  | objassign k x => cases pure_ok h; exact Mono.refl _
   | unify k =>
     simp only [step] at h
     split at h
